@@ -550,9 +550,16 @@ impl Runner {
     }
 
     fn set_raw(&mut self, how: i64, raw: &Sx) {
+        // how = injection mode + 4 * tap mask: bit i (i < 4) taps key i, bit 4 taps mouse button 0 - pressed and
+        // released through window events before the frame, if it is not held in this frame (a sub-frame tap never
+        // shows in ButtonInput::pressed, which is what the crate reads)
+        let taps = how / 4;
+        let how = how % 4;
         let (_, a) = raw.app(); // mkRaw [keys] [mb] (pair mx my) (pair wx wy) [pads] [ui]
         let keys = ilist(&a[0]);
         let mbs = ilist(&a[1]);
+        let tapk: Vec<i64> = (0..4).filter(|i| taps & (1 << i) != 0 && !keys.contains(i) && !self.raw.keys.contains(i)).collect();
+        let tapb: Vec<i64> = if taps & 16 != 0 && !mbs.contains(&0) && !self.raw.mbuttons.contains(&0) { vec![0] } else { vec![] };
         let kp: Vec<i64> = keys.iter().filter(|k| !self.raw.keys.contains(k)).copied().collect();
         let kr: Vec<i64> = self.raw.keys.iter().filter(|k| !keys.contains(k)).copied().collect();
         let bp: Vec<i64> = mbs.iter().filter(|k| !self.raw.mbuttons.contains(k)).copied().collect();
@@ -571,6 +578,15 @@ impl Runner {
             }
             1 => apply_raw_events(world, &ev),
             _ => world.resource_mut::<PendingFirst>().0.push(ev),
+        }
+        if !tapk.is_empty() || !tapb.is_empty() {
+            let show = |v: &Vec<i64>| v.iter().map(|x| x.to_string()).collect::<Vec<_>>().join(" ");
+            let tap = crate::sexp::parse(&format!("(rawev [{}] [{}] [{}] [{}])", show(&tapk), show(&tapk), show(&tapb), show(&tapb)));
+            if how == 2 {
+                world.resource_mut::<PendingFirst>().0.push(tap);
+            } else {
+                apply_raw_events(world, &tap);
+            }
         }
         self.raw.keys = keys;
         self.raw.mbuttons = mbs;
